@@ -56,6 +56,7 @@ POOL = [
     "t = 10:54:00.129 u = 2001-01-01T00:00:00.004Z v = 23:59:00.5 w = 00:00:00.000\n",
     "z1 = 10:30+12:45 z2 = 2001-01-01T10:30:00-12:30 z3 = 01:02:03-00:30 z4 = 12:00+0\n",
     "p = ^x q = N/A r = a+b s = C++ t = +x\n",
+    "pattern = \"a*/b\" q = (\"r**/s\", \"x/*y\", \"*/\") r = \"4:3\" s = \"+5\"\n",
     "name = \"NULL\" other = \"true\" third = 'END' fourth = \"Group\"\n",
     "note = \"pre- and post-launch 2- or 3-axis - x- xxxxxxxxxxxx- end- of the long-word- list -- beta\"\n"
     "list = (\"- first bullet of a long description that wraps\", \"xxxxxxxxxxxxxxxxxxxxxxxxxxxxxxxxxxxxxxxxxxxxxxxxxx- yyyyyyyyyyyyyyyyyyyyyyyyyyyyyyyyyyyyyyyy\")\n",
